@@ -81,6 +81,7 @@ def parse_hist(out):
         elif cur is not None and w[0] == "STATUS":
             cur["status"] = dict(code=int(w[1]), has=w[2] == "1", before=int(w[3]), after=int(w[4]), approx=w[5] == "1", diff=int(w[6]), evals=int(w[8]), first=int(w[9]), further=int(w[10]), secs=float(w[11]))
             cur["lines"].append(" ".join(w[:7]))
+        elif cur is not None and w[0] == "GOALMISMATCH": cur["goalmismatch"] = " ".join(w[1:])
         elif cur is not None and w[0] == "START": cur["starts"].append((int(w[1]), w[2] == "1", w[3] == "1")); cur["lines"].append(" ".join(w))
         elif cur is not None and w[0] == "P": cur["P"].append(dict(id=int(w[1]), inb=w[2] == "1", valid=w[3] == "1", goal=w[4] == "1", gdist=int(w[5]))); cur["lines"].append(" ".join(w))
         elif cur is not None and w[0] == "ACC": cur["ACC"].add((int(w[1]), int(w[2]))); cur["lines"].append(" ".join(w))
@@ -197,6 +198,7 @@ def main():
             if st["code"] == 6 and st["has"] and st["approx"]: pred(j, "EXACT_SOLUTION returned but the held top solution is approximate (op %d '%s')" % (k, o))
             if st["after"] < st["before"]: pred(j, "solve() removed solutions from the problem definition (op %d '%s')" % (k, o))
             cur_q = op["query"]
+            if op.get("goalmismatch"): pred(j, "the goal's isSatisfied() / distance disagrees with distance(state, goal state) < threshold: state %s (op %d '%s')" % (op["goalmismatch"], k, o))
             if st["has"] and op["P"]:
                 ids = [p["id"] for p in op["P"]]
                 cur_starts = [i for i, v, b in op["starts"]]
